@@ -481,12 +481,68 @@ fn run_case<'a>(ctx: &'a Ctx, case: u64, acc: &'a mut Acc) -> CaseFut<'a> {
         let mut refused = 0;
         let mut foreign_ops = 0;
         let mut violated = false;
-        for _ in 0..n_calls {
+        let mut boost = 0;
+        // directed tail: once the random calls are over, an admin withdraws what a member had in the room of one of
+        // its own rows (its rights on the entity, or its membership), then that member tries to move, update and
+        // delete the row written while it still had the right. The same oracle decides.
+        let mut forced: std::collections::VecDeque<(usize, Call)> = std::collections::VecDeque::new();
+        let mut step = 0;
+        let mut directed_done = false;
+        loop {
+            if step >= n_calls && forced.is_empty() {
+                if directed_done {
+                    break;
+                }
+                directed_done = true;
+                let c = rng.gen_range(1..3);
+                let snap = w.peers[0].snapshot().await;
+                let mut target: Option<(usize, usize, &'static str)> = None;
+                for (idx, (id, ent)) in w.rows.iter().enumerate() {
+                    if let Some(n) = snap.nodes.iter().find(|(k, _)| k.0 == *id).map(|(_, n)| n) {
+                        if n.verifying_key == keys[c] {
+                            if let Some(x) = w.rooms.iter().position(|r| Some(r.id) == n.room_id) {
+                                if x < 2 {
+                                    target = Some((idx, x, *ent));
+                                }
+                            }
+                        }
+                    }
+                }
+                let Some((idx, x, ent)) = target else { break };
+                let n_groups = w.rooms[x].groups.len();
+                let by_right = rng.gen_bool(0.5);
+                for g in 0..n_groups {
+                    if by_right {
+                        forced.push_back((0, Call::RoomEdit { room: x, edit: RoomEdit::Right(g, RightSpec { entity: ent.to_string(), own: false, all: false }) }));
+                    } else {
+                        forced.push_back((0, Call::RoomEdit { room: x, edit: RoomEdit::User(g, keys[c].clone(), false) }));
+                    }
+                }
+                let mut tail = vec![Call::Move { row: idx, to: 1 - x }, Call::Update { row: idx }, Call::DeleteNode { row: idx }];
+                use rand::seq::SliceRandom;
+                tail.shuffle(&mut rng);
+                for t in tail {
+                    forced.push_back((c, t));
+                }
+                acc.count("directed_tails", 1);
+                continue;
+            }
+            step += 1;
             w.tick(rng.gen_range(1..4000));
             w.counter += 1;
-            let caller = rng.gen_range(0..3);
+            let forced_call = forced.pop_front();
+            let caller = match &forced_call {
+                Some((c, _)) => *c,
+                None => rng.gen_range(0..3),
+            };
             let nrows = w.rows.len();
-            let k = rng.gen_range(0..100);
+            let mut k = rng.gen_range(0..100);
+            // right after an accepted room mutation the rows written before it are the interesting targets:
+            // moves, updates, deletions and reference changes are drawn more often for a few calls
+            if boost > 0 && nrows > 0 {
+                boost -= 1;
+                k = [35, 35, 35, 20, 72, 60, 55][rng.gen_range(0..7)];
+            }
             let r = rng.gen_range(0..1000);
             let r2 = rng.gen_range(0..1000);
             let room = rng.gen_range(0..2);
@@ -537,12 +593,19 @@ fn run_case<'a>(ctx: &'a Ctx, case: u64, acc: &'a mut Acc) -> CaseFut<'a> {
             } else {
                 Call::NewRoom
             };
+            let call = match forced_call {
+                Some((_, c)) => c,
+                None => call,
+            };
             // the model before the call decides
             let model_before: Vec<RoomModel> = w.rooms.iter().map(|r| r.model.clone()).collect();
             let caller_key = keys[caller].clone();
             let before = w.peers[caller].snapshot().await;
             let t = w.t;
             let res = perform(&mut w, caller, &call).await;
+            if matches!(call, Call::RoomEdit { .. }) && res.is_ok() {
+                boost = 3;
+            }
             w.peers[caller].barrier().await;
             let after = w.peers[caller].snapshot().await;
             let changes = diff(&before, &after);
